@@ -7,10 +7,14 @@
         t        = instant the connection's goroutine starts (its first use of the connection)
         events   = list of  <t>:<kind>   kind ∈ d (data) | c (complete) | hn | hb | hm (head: no body /
                    with body / intercepted CONNECT) | rs (the proxy starts writing the response) |
-                   tu (the tunnel is up: 2xx to CONNECT / 101 written);  `~` = no event
+                   tu (the tunnel is up: 2xx to CONNECT / 101 written) | pk (a body byte that is only peeked:
+                   the first byte of the CRLF ending a chunked body);  `~` = no event
                    evaluated by `runK` (the keep-alive loop with the reader: d / h* events that arrive while
                    the proxy serves the previous request are kept and consumed when the loop comes round;
                    equal to `run` when nothing is sent ahead — `c15_loop_agrees_without_write_ahead`)
+    timeouts <stacking> <limits> <t> <events>     → list of instants at which the read of a request body is abandoned
+                   at its deadline t0 + ReadTimeout and answered with 504 Gateway Timeout, the connection staying
+                   open (F49; `timeoutsK`);  `~` = none
     accept <stacking> <limits> <free> <peers>     → list of <accept>:<start>
         peers    = list of  <arrive>:<hdr>   hdr = instant the PROXY header is complete, `x` = never
                    (what a peer sends does not enter the accept loop; it is part of the request all the same)
@@ -53,7 +57,7 @@ def limitsOf (s : String) : Option Limits :=
 def evOf : String → Option Ev
   | "d" => some .data | "c" => some .complete
   | "hn" => some (.head .noBody) | "hb" => some (.head .withBody) | "hm" => some (.head .connectMitm)
-  | "rs" => some .respStart | "tu" => some .tunnelUp
+  | "rs" => some .respStart | "tu" => some .tunnelUp | "pk" => some .peeked
   | _ => none
 
 def timedEvOf (s : String) : Option (Nat × Ev) :=
@@ -80,6 +84,10 @@ def handle : List String → String
   | ["deadline", st, lim, t, evs] =>
     match stackingOf st, limitsOf lim, natOf t, (splitList evs).mapM timedEvOf with
     | some S, some L, some t, some es => showOutcome (runK S L ⟨accepted S L t, []⟩ es)
+    | _, _, _, _ => "bad-op"
+  | ["timeouts", st, lim, t, evs] =>
+    match stackingOf st, limitsOf lim, natOf t, (splitList evs).mapM timedEvOf with
+    | some S, some L, some t, some es => joinList ((timeoutsK S L ⟨accepted S L t, []⟩ es).map toString)
     | _, _, _, _ => "bad-op"
   | ["accept", st, lim, free, peers] =>
     match stackingOf st, limitsOf lim, natOf free, (splitList peers).mapM peerOf with
